@@ -6,6 +6,8 @@ import (
 	"fmt"
 	"os"
 
+	"verif/mc/wire"
+
 	"verif/mc/hcli"
 	"verif/mc/report"
 	"verif/mc/sched"
@@ -61,6 +63,28 @@ func main() {
 				os.Exit(1)
 			}
 			fmt.Println("no violation")
+		case "C04H":
+			var rp httpReplay
+			a.LoadReplay(&rp)
+			w := NewWorld(u, DefaultConfig)
+			if rp.Side != "request" {
+				fmt.Println("response-side cases are replayed by re-running the check; the mutated response is:", rp.Raw)
+				return
+			}
+			x, err := wire.DoRaw(w.transport.Handler, []byte(rp.Raw))
+			fmt.Printf("request %.400q\n", rp.Raw)
+			if x != nil && x.Panic != nil {
+				fmt.Println("FAIL: panic escaped:", x.Panic)
+				os.Exit(1)
+			}
+			if err == nil && x.Response != nil {
+				fmt.Printf("status %d body %.300q resource invocations %d\n", x.Response.StatusCode, x.Body, len(w.calls))
+				if x.Response.StatusCode >= 500 {
+					fmt.Println("FAIL: 5xx")
+					os.Exit(1)
+				}
+			}
+			fmt.Println("no violation of the status rules (4xx-for-malformed is judged by the check)")
 		case "C07W":
 			var rp exclWireReplay
 			a.LoadReplay(&rp)
@@ -159,6 +183,8 @@ func main() {
 		partC02(a, rep, univName, u)
 	case "C07W":
 		partC07W(a, rep, univName, u)
+	case "C04H":
+		partC04H(a, rep, univName, u)
 	case "C08":
 		partC08(a, rep, univName, u)
 	case "C16":
